@@ -175,12 +175,11 @@ def run(ctx):
     for e in sb.stores("tension"):
         lp = e.loops()
         ok = False
-        if len(lp) == 1 and lp[0][2] == T.call(("m", "items"), (T.attr(SELF, "big_edges"),)) and not e.conds():
-            b = ("bv", lp[0][1])
+        ro = rules.roles(lp[0]) if len(lp) == 1 else None
+        if ro is not None and ro.base == T.attr(SELF, "big_edges") and ro.kind in ("items", "values") and not e.conds():
             k = ("bv", 0)
-            want = T.call("mean", (("map", T.attr(T.idx(T.attr(SELF, "edges"), k), "tension"), k, T.attr(T.idx(b, T.num(1)), "edges"), T.TRUE),))
-            tgt_ok = e.target in (T.attr(T.idx(T.attr(SELF, "big_edges"), T.idx(b, T.num(0))), "tension"), T.attr(T.idx(b, T.num(1)), "tension"))
-            ok = tgt_ok and T.alpha(e.value) == T.alpha(want)
+            want = T.call("mean", (("map", T.attr(T.idx(T.attr(SELF, "edges"), k), "tension"), k, T.attr(ro.val, "edges"), T.TRUE),))
+            ok = e.target == T.attr(ro.val, "tension") and T.alpha(e.value) == T.alpha(want)
         ctx.check(ok, "FORM", f"{fb.qualname} / FORM / interface tension = mean of own mesh edges", ctx.where(fb, e.node),
                   "big_edge.tension = mean(self.edges[eid].tension for eid in big_edge.edges)",
                   f"interface tension is {T.show(T.alpha(e.value))[:200]} stored at {T.show(T.alpha(e.target))[:80]}")
